@@ -231,8 +231,24 @@ def o5(tier):
     return ob.done(cases=len(paths))
 
 
+def o6(tier):
+    """strictness does not depend on what the store already holds: the rumor is validated before the dedup lookup"""
+    from props import C16
+    r = C16.o1(tier)
+    r.oid = 'O6'
+    r.title = 'process_welcome (shared with C16-O1): validate_welcome_event is the first thing that happens, so a malformed rumor is refused also under an already known wrapper id'
+    return r
+
+def o7(tier):
+    """media tags round-trip: what the sender may publish, the receiver parses back verbatim"""
+    from props import C17
+    r = C17.o4(tier)
+    r.oid = 'O7'
+    r.title = 'parse_imeta_tag (shared with C17-O4): the receiver applies the same validators as the sender and nothing more, and takes the values verbatim -- a tag produced by create_imeta_tag parses back to the same reference'
+    return r
+
 def run(tier, seed, only=None):
-    obs = [('O1', o1), ('O2', o2), ('O3', o3), ('O5', o5)] + ([('O4', o4)] if tier == 'thorough' else [])
+    obs = [('O1', o1), ('O2', o2), ('O3', o3), ('O5', o5), ('O6', o6), ('O7', o7)] + ([('O4', o4)] if tier == 'thorough' else [])
     out = []
     for k, f in obs:
         if only and k not in only:
